@@ -44,10 +44,15 @@ def make_idmap(n_ids, rnd: random.Random) -> IdMap:
     while len(pool) < n_ids:
         c = rnd.choice([rnd.randint(-40, 60), rnd.randint(10**5, 10**6), -rnd.randint(10**3, 10**4),
                         rnd.randint(2**33, 2**34)])
-        if c not in (0, model.NOATOM):
+        if c != model.NOATOM:
             pool.add(c)
     pool = list(pool)
+    # identifier 0 is legitimate and falsy: always have it in play
     rnd.shuffle(pool)
+    if 0 in pool:
+        pool.remove(0)
+        pool.append(rnd.randint(61, 99))
+    pool[rnd.randrange(max(1, n_ids - 2))] = 0      # on one of the universe identifiers, not on a fresh one
     return IdMap({i + 1: pool[i] for i in range(n_ids)})
 
 
